@@ -67,6 +67,15 @@ WARN_TYPES = {"DeprecationWarning": DeprecationWarning, "UserWarning": UserWarni
 TYPES = {"int": int, "str": str, "bytes": bytes, "list": list, "dict": dict, "bool": bool,
          "Obj": Obj, "tuple": tuple, "NoneType": type(None)}
 
+import functools as _functools
+import operator as _operator
+
+
+class _LenCallable:
+    def __call__(self, v):
+        return len(v)
+
+
 PREPROCESSORS = {
     # name: (function, source domain, target domain)
     "neg": (lambda v: -v, "int", "int"),
@@ -81,6 +90,10 @@ PREPROCESSORS = {
     "get_a": (lambda o: o.a, "obj", "int"),
     "get_s": (lambda o: o.s, "obj", "str"),
     "len_b": (len, "bytes", "int"),
+    # callables that are neither functions nor classes (no __name__)
+    "neg_partial": (_functools.partial(_operator.mul, -1), "int", "int"),
+    "upper_mc": (_operator.methodcaller("upper"), "str", "str"),
+    "len_obj": (_LenCallable(), "list", "int"),
 }
 for _n, (_f, _s, _t) in PREPROCESSORS.items():
     if getattr(_f, "__name__", "") == "<lambda>":
